@@ -2,6 +2,7 @@ package main
 
 import (
 	"fmt"
+	"go/ast"
 	"go/constant"
 	"go/token"
 	"go/types"
@@ -39,6 +40,7 @@ type Frame struct {
 	panics    int
 	stack     []*ssa.Function
 	deferOrd  map[*ssa.Defer]int
+	curRec    *loopRec // innermost invariant-cut loop around the block being executed
 }
 
 func (e *Eng) typeID(t types.Type) int {
@@ -139,7 +141,7 @@ func (fr *Frame) val(st *State, v ssa.Value) Val {
 			}
 			return TV{ref, SInt, x.Type()}
 		}
-		return &Addr{kind: aGlobal, name: name, typ: t}
+		return &Addr{kind: aGlobal, name: name, typ: t, glob: x}
 	case *ssa.Builtin:
 		return x
 	}
@@ -486,6 +488,16 @@ func (fr *Frame) execBlock(st *State, n node) []*State {
 	if st.dead || st.reach == "false" {
 		return outs
 	}
+	fr.curRec = nil
+	best := -1
+	for _, l := range fr.li.loops {
+		if l.body[b] && (l.spec == nil || l.spec.Unroll == 0) {
+			if rec := fr.loopRecs[node{l.header, fr.li.restrict(n.ctx, l.header)}.key()]; rec != nil && (best < 0 || len(l.body) < best) {
+				fr.curRec = rec
+				best = len(l.body)
+			}
+		}
+	}
 	for _, in := range b.Instrs {
 		if st.dead {
 			return outs
@@ -560,9 +572,6 @@ func (fr *Frame) execInstr(st *State, in ssa.Instruction) {
 	s := r.eng.sorts
 	switch x := in.(type) {
 	case *ssa.DebugRef:
-		if id, ok := x.Expr.(interface{ String() string }); ok {
-			_ = id
-		}
 		obj := x.Object()
 		if obj == nil {
 			return
@@ -583,6 +592,9 @@ func (fr *Frame) execInstr(st *State, in ssa.Instruction) {
 		} else {
 			fr.setVar(st, obj.Name(), v)
 			delete(st.vars, "&"+obj.Name())
+		}
+		if id, ok := x.Expr.(*ast.Ident); ok && id.Pos() == obj.Pos() {
+			fr.siteGeneric(st, "def", obj.Name(), nil)
 		}
 	case *ssa.Alloc:
 		t := x.Type().(*types.Pointer).Elem()
@@ -625,7 +637,7 @@ func (fr *Frame) execInstr(st *State, in ssa.Instruction) {
 				return
 			}
 			sl := fr.tv(st, x.X).S
-			arr, idx, length = app("s_arr", sl), app("+", app("s_off", sl), i), app("s_len", sl)
+			arr, idx, length = app("s_arr", sl), add(app("s_off", sl), i), app("s_len", sl)
 			et = xt.Elem()
 		case *types.Pointer:
 			at := xt.Elem().Underlying().(*types.Array)
@@ -1284,7 +1296,7 @@ func (fr *Frame) sliceOp(st *State, x *ssa.Slice) {
 			r.oblige(st, "slice-bounds", fr.siteLabel(x), "slice bounds in range", and(app("<=", "0", lo), app("<=", lo, hi), app("<=", hi, mx), app("<=", mx, app("s_cap", sl))))
 		}
 		// a zero-length result of slicing keeps a non-nil array unless the source was nil
-		fr.bind(st, x, TV{app("mk_slice", app("s_arr", sl), ite(eq(app("s_arr", sl), "0"), "0", app("+", app("s_off", sl), lo)), app("-", hi, lo), app("-", mx, lo)), SSlice, x.Type()})
+		fr.bind(st, x, TV{app("mk_slice", app("s_arr", sl), add(app("s_off", sl), lo), sub(hi, lo), sub(mx, lo)), SSlice, x.Type()})
 	case *types.Pointer:
 		at := xt.Elem().Underlying().(*types.Array)
 		n := num(at.Len())
@@ -1306,7 +1318,7 @@ func (fr *Frame) sliceOp(st *State, x *ssa.Slice) {
 			fr.bind(st, x, r.freshOf(st, "keyslice", x.Type()))
 			return
 		}
-		fr.bind(st, x, TV{app("mk_slice", ref, lo, app("-", hi, lo), app("-", mx, lo)), SSlice, x.Type()})
+		fr.bind(st, x, TV{app("mk_slice", ref, lo, sub(hi, lo), sub(mx, lo)), SSlice, x.Type()})
 	default: // string
 		if x.Low == nil && x.High == nil {
 			st.env[x] = fr.val(st, x.X)
